@@ -217,7 +217,7 @@ class Vec(object):
     def __delitem__(self, i):
         del self.xs[i]
 
-    def __call__(self, *args, **kwargs):
+    def __call__(self, /, *args, **kwargs):      # positional-only: `v(self=1)` is a legal call of the target
         self.log.append("call")
         return (len(self.xs), args, tuple(sorted(kwargs.items())))
 
@@ -271,6 +271,66 @@ class Vec(object):
     def peer(self):
         """an object created on the target's side"""
         return Vec(reversed(self.xs))
+
+
+class CustomError(Exception):
+    """a user exception class, importable by name"""
+
+
+class Raiser(object):
+    def fail(self, *args):
+        raise CustomError(*args)
+
+
+class Celsius(object):
+    """knows only its own kind"""
+    def __init__(self, deg):
+        self.deg = deg
+
+    def __eq__(self, o):
+        return self.deg == o.deg if isinstance(o, Celsius) else NotImplemented
+
+    def __ne__(self, o):
+        return self.deg != o.deg if isinstance(o, Celsius) else NotImplemented
+
+    def __lt__(self, o):
+        return self.deg < o.deg if isinstance(o, Celsius) else NotImplemented
+
+    def __le__(self, o):
+        return self.deg <= o.deg if isinstance(o, Celsius) else NotImplemented
+
+    __hash__ = None
+
+
+class Fahrenheit(object):
+    """knows its own kind AND Celsius: in `celsius == fahrenheit` only the right operand can decide"""
+    def __init__(self, deg):
+        self.deg = deg
+
+    def _c(self, o):
+        if isinstance(o, Fahrenheit):
+            return (o.deg - 32) * 5 / 9
+        if isinstance(o, Celsius):
+            return o.deg
+        return None
+
+    def __eq__(self, o):
+        c = self._c(o)
+        return NotImplemented if c is None else abs(self._c(self) - c) < 1e-9
+
+    def __ne__(self, o):
+        c = self._c(o)
+        return NotImplemented if c is None else abs(self._c(self) - c) >= 1e-9
+
+    def __gt__(self, o):
+        c = self._c(o)
+        return NotImplemented if c is None else self._c(self) > c
+
+    def __ge__(self, o):
+        c = self._c(o)
+        return NotImplemented if c is None else self._c(self) >= c
+
+    __hash__ = None
 
 
 class Pairs(object):
@@ -365,7 +425,7 @@ def _shape_class(variant):
 
     if variant == "call":
         class Shape(Base):
-            def __call__(self, *args, **kwargs):
+            def __call__(self, /, *args, **kwargs):
                 self.log.append("call")
                 return (len(args), tuple(sorted(kwargs)))
     elif variant == "seq":
@@ -812,7 +872,8 @@ def build_ops():
         O("setattr", lambda o, n, v: setattr(o, n, v), ("attrname", "value"), None),
         O("delattr", lambda o, n: delattr(o, n), ("attrname",), None),
         O("method", None, ("methodcall",), None),
-        O("call", lambda o, a, b: o(a, x=b), ("value", "any"), [], kinds=["vec", "shape-call", "shape-seq", "shape-ctx", "shape-ops"]),
+        O("call", lambda o, a, n, b, m: o(a, **{n: b, m: a}), ("value", "kwname", "any", "kwname"), [],
+          kinds=["vec", "shape-call", "shape-seq", "shape-ctx", "shape-ops"]),
     ]
     return ops
 
@@ -1002,6 +1063,9 @@ def pick_operand(tw, r, spec, length):
         return imm(None)
     if spec == "excname":
         return imm(r.choice(["ValueError", "KeyError", "ZeroDivisionError", "StopIteration", "TypeError"]))
+    if spec == "kwname":
+        # keyword names that coincide with parameter names a proxy's own methods might use
+        return imm(r.choice(["x", "self", "args", "kwargs", "cls", "name", "obj", "handler", "proxy", "key", "self"]))
     if spec == "attrname":
         if k == "pairs" and tw.config_name == "default":
             return imm(r.choice(PAIRS_DEFAULT_ATTRS))
@@ -1381,6 +1445,136 @@ def class_instance_cases():
     return [(n, o, cfg) for n in sorted(CLASS_INSTANCE_TARGETS) for o in ("class-first", "instance-first") for cfg in ("classic", "public")]
 
 
+_KEYS = {"a": 1, "b": 2, 3: None}
+COMPARISON_PAIRS = {
+    # name: (left factory, right factory); each factory is called once for the far side and once for the local twin
+    "set == keys (only the right knows the left)": (lambda: {"a", "b", 3}, lambda: dict(_KEYS).keys()),
+    "set == other keys": (lambda: {"a", "b"}, lambda: dict(_KEYS).keys()),
+    "keys == set (the left knows the right)": (lambda: dict(_KEYS).keys(), lambda: {"a", "b", 3}),
+    "set == items": (lambda: {("a", 1), ("b", 2), (3, None)}, lambda: dict(_KEYS).items()),
+    "items == set": (lambda: dict(_KEYS).items(), lambda: {("a", 1)}),
+    "frozenset value == keys": (lambda: frozenset(["a", "b", 3]), lambda: dict(_KEYS).keys()),
+    "keys == frozenset value": (lambda: dict(_KEYS).keys(), lambda: frozenset(["a", "b", 3])),
+    "set == set": (lambda: {1, 2}, lambda: {2, 1}),
+    "set == list": (lambda: {1, 2}, lambda: [1, 2]),
+    "Celsius == Fahrenheit (only the right knows the left)": (lambda: Celsius(100), lambda: Fahrenheit(212)),
+    "Celsius == other Fahrenheit": (lambda: Celsius(100), lambda: Fahrenheit(50)),
+    "Fahrenheit == Celsius (the left knows the right)": (lambda: Fahrenheit(212), lambda: Celsius(100)),
+    "Celsius == Celsius": (lambda: Celsius(5), lambda: Celsius(5)),
+    "Celsius == value": (lambda: Celsius(5), lambda: 5),
+    "Vec == Pairs (neither knows the other)": (lambda: Vec([1]), lambda: Pairs(1)),
+}
+CMP_FUNCS = [("==", operator.eq), ("!=", operator.ne), ("<", operator.lt), ("<=", operator.le), (">", operator.gt), (">=", operator.ge)]
+
+
+def comparison_case(name, config_name):
+    """both operands live on the target's side (an immutable operand is passed by value): the six comparisons through
+    the proxies against the same expressions on twins.  Where the left operand's type answers NotImplemented the
+    interpreter must still get to ask the right operand's reflected method."""
+    from rpyc.core import brine
+    mk_l, mk_r = COMPARISON_PAIRS[name]
+    sess = Session(config_name)
+    steps, problems = [], []
+    try:
+        far_l, far_r, tw_l, tw_r = mk_l(), mk_r(), mk_l(), mk_r()
+        pl = far_l if brine.dumpable(far_l) else sess.lend(far_l)
+        pr = far_r if brine.dumpable(far_r) else sess.lend(far_r)
+        for sym, f in CMP_FUNCS:
+            (kp, vp), exp = outcome(lambda: f(pl, pr))
+            if exp is not None and is_policy_denial(exp):
+                steps.append((sym, "refused by the configuration", None))
+                continue
+            (kt, vt), ext = outcome(lambda: f(tw_l, tw_r))
+            rp = (kp, valtext.canon(vp) if kp == "ok" and brine.dumpable(vp) else str(vp))
+            rt = (kt, valtext.canon(vt) if kt == "ok" and brine.dumpable(vt) else str(vt))
+            steps.append((sym, str(rp), str(rt)))
+            if rp != rt:
+                problems.append((len(steps) - 1, "%s: left %s right" % (name, sym),
+                                 "through the proxies %r, on the targets %r" % (rp, rt), "twin:comparison"))
+        if not sess.usable():
+            problems.append((len(steps), "end", "the connection is not usable afterwards", "twin:comparison"))
+    except Exception as ex:  # noqa
+        problems.append((len(steps), "setup", "could not set the comparison up: %s" % type(ex).__name__, "twin:comparison"))
+    finally:
+        died = sess.close()
+    if died:
+        problems.append((len(steps), "end", "the serving side died: %r" % (died[:1],), "twin:comparison"))
+    return steps, problems
+
+
+def exception_class_case():
+    """the same user exception class raised on two connections of one process: under the default configuration it
+    arrives as the stand-in named after it (configuration, C09), under the classic configuration - afterwards - it must
+    arrive as the class itself"""
+    steps, problems = [], []
+    for config_name, want_real in (("default", False), ("public", False), ("classic", True), ("default", False), ("classic", True)):
+        sess = Session(config_name)
+        try:
+            p = sess.lend(Raiser())
+            (k, v), ex = outcome(lambda: p.fail(1, "x"))
+            if ex is not None and is_policy_denial(ex):
+                # `fail` is not readable under the default configuration: call through a callable handed over instead
+                f = sess.lend(Raiser().fail)
+                (k, v), ex = outcome(lambda: f(1, "x"))
+            got = ("exc", type(ex).__name__, isinstance(ex, CustomError), tuple(ex.args)) if ex is not None else ("ok", repr(v))
+            want = ("exc", "CustomError" if want_real else "props.c02.CustomError" if got[1:2] == ("props.c02.CustomError",) else "CustomError", want_real, (1, "x"))
+            if not want_real:
+                # a stand-in named after the class, or - configuration permitting - the class: only the name's last part
+                got_cmp = (got[0], str(got[1]).split(".")[-1]) + tuple(got[3:])
+                want_cmp = ("exc", "CustomError", (1, "x"))
+            else:
+                got_cmp, want_cmp = got, ("exc", "CustomError", True, (1, "x"))
+            steps.append((config_name, str(got), str(want_cmp)))
+            if got_cmp != want_cmp:
+                problems.append((len(steps) - 1, "raise CustomError(1, 'x') under %s" % config_name,
+                                 "the caller sees %r, expected %r (class name, is the class itself, args)" % (got, want_cmp),
+                                 "twin:exception-class"))
+        except Exception as ex2:  # noqa
+            problems.append((len(steps), "setup", "could not run: %s" % type(ex2).__name__, "twin:exception-class"))
+        finally:
+            sess.close()
+    return steps, problems
+
+
+def caller_side_comparison_observation():
+    """one operand local, one remote (a caller-side object as operand: OUTSIDE the property's operand discipline):
+    recorded, never judged"""
+    sess = Session("classic")
+    out = []
+    try:
+        c_local, f_far = Celsius(100), Fahrenheit(212)
+        fp = sess.lend(f_far)
+        for sym, f in CMP_FUNCS[:2]:
+            for label, a, b, ta, tb in (("local Celsius %s proxy(Fahrenheit)" % sym, c_local, fp, c_local, f_far),
+                                        ("proxy(Fahrenheit) %s local Celsius" % sym, fp, c_local, f_far, c_local)):
+                (kp, vp), _ = outcome(lambda: f(a, b))
+                (kt, vt), _ = outcome(lambda: f(ta, tb))
+                out.append("%s: %s" % (label, "as on the targets" if (kp, vp) == (kt, vt) else "proxy %r, targets %r" % ((kp, vp), (kt, vt))))
+    except Exception as ex:  # noqa
+        out.append("could not run: %s" % type(ex).__name__)
+    finally:
+        sess.close()
+    return out
+
+
+def fixed_cases():
+    """deterministic cases run every time: (kind, parameters)"""
+    out = [("class_instance", list(c)) for c in class_instance_cases()]
+    out += [("comparison", [n, cfg]) for n in COMPARISON_PAIRS for cfg in ("classic", "default")]
+    out += [("exception_class", [])]
+    return out
+
+
+def run_fixed(kind, params):
+    if kind == "class_instance":
+        return class_instance_case(*params)
+    if kind == "comparison":
+        return comparison_case(*params)
+    if kind == "exception_class":
+        return exception_class_case()
+    raise ValueError(kind)
+
+
 def with_exception_probe(config_name):
     """leaving `with proxy:` WITH an exception: outside the property; must not hang, connection stays usable"""
     sess = Session(config_name)
@@ -1468,13 +1662,15 @@ def correspondence(ctx):
                                         op="twin:" + label, impl=text[:700], model="(proxy == twin)"))
         if len(c.samples) < 8 and k % 131 == 7:
             c.samples.append(dict(kind=kind, config=config_name, steps=[(s["label"], s["operands"], str(s["proxy"])[:80]) for s in tw.steps[:8]]))
-    for (cname, order, cfg) in class_instance_cases():
-        steps, problems = class_instance_case(cname, order, cfg)
+    for (fkind, params) in fixed_cases():
+        steps, problems = run_fixed(fkind, params)
         c.evaluations += len(steps)
-        c.count("class-and-instance:%s:%s" % (order, cfg), len(steps))
-        c.signatures.add("class-and-instance:%s:%s:%s" % (cname, order, cfg))
+        c.count("fixed-case:%s%s" % (fkind, (":" + ":".join(str(x) for x in params[1:])) if fkind == "class_instance" else ""), len(steps))
+        c.signatures.add("fixed:%s:%s" % (fkind, ":".join(str(x) for x in params)))
         for (idx, label, text, sig) in problems:
-            c.disagreements.append(dict(case=dict(class_instance=[cname, order, cfg]), op="class-and-instance:" + label, impl=text[:700], model="(proxy == twin)"))
+            c.disagreements.append(dict(case=dict(fixed=[fkind, params]), op="%s:%s" % (fkind, label), impl=text[:700], model="(proxy == twin)"))
+    for text in caller_side_comparison_observation():
+        observations["comparison with a caller-side object as operand (outside the property): " + text] += 1
     try:
         ok, obs = with_exception_probe("classic")
     except Exception as ex:  # noqa
@@ -1679,12 +1875,12 @@ def oracle_search(ctx, corr, broken):
     found = buffiter_oracle()
     if found and found[2] not in known:
         return found
-    for (cname, order, cfg) in class_instance_cases():
-        steps, problems = class_instance_case(cname, order, cfg)
+    for (fkind, params) in fixed_cases():
+        steps, problems = run_fixed(fkind, params)
         problems = [p_ for p_ in problems if p_[3] not in known]
         if problems:
-            return dict(kind="history", class_instance=[cname, order, cfg], steps=steps), \
-                "a user class and one of its instances on one connection (%s, %s, %s): %s: %s" % (cname, order, cfg, problems[0][1], problems[0][2][:400]), problems[0][3]
+            return dict(kind="history", fixed=[fkind, params], steps=steps), \
+                "%s %s: %s: %s" % (fkind, params, problems[0][1], problems[0][2][:400]), problems[0][3]
     r = Rng(ctx.seed).fork("c02-search")
 
     def candidates():
@@ -1748,8 +1944,8 @@ def _known_probes():
 
 def replay(case):
     out = dict(case=case)
-    if "class_instance" in case:
-        steps, problems = class_instance_case(*case["class_instance"])
+    if "fixed" in case or "class_instance" in case:
+        steps, problems = run_fixed(*case["fixed"]) if "fixed" in case else class_instance_case(*case["class_instance"])
         out["steps"] = steps
         out["oracle"] = ["%s: %s" % (p_[1], p_[2]) for p_ in problems] or "holds"
         return out
